@@ -37,6 +37,7 @@ type Engine struct {
 	readers       []ReadersClause
 	writers       []WritersClause
 	callers       []CallersClause
+	nonFresh      map[*ssa.Function]map[string]bool // locations a function may change in pre-existing objects
 	internal      map[string][]string // function -> packages that may call it
 	fpCache       map[string]map[string]bool
 	orderSkip     map[string]string
@@ -107,6 +108,7 @@ func loadEngine(repo string, overlay map[string][]byte) (*Engine, error) {
 	}
 	sort.Slice(e.allNamed, func(i, j int) bool { return typeKey(e.allNamed[i]) < typeKey(e.allNamed[j]) })
 	e.computeModSets()
+	e.computeNonFresh()
 	if err := e.loadContracts(); err != nil {
 		return nil, err
 	}
